@@ -143,6 +143,7 @@ func (w *World) options() *NoKV.Options {
 func (w *World) OpenDB() (err error) {
 	verifhook.Reset()
 	verifhook.Set("lsm.no-background-compaction", 1)
+	verifhook.Set("lsm.serial-table-build", 1)
 	defer func() {
 		if r := recover(); r != nil {
 			err = fmt.Errorf("open panicked: %v", r)
